@@ -94,6 +94,16 @@ func parseCfg(w []string) (caseCfg, bool) {
 			return c, false
 		}
 	}
+	for i := range c.quotas {
+		if f, ok := proto.KV(w, fmt.Sprintf("f%d", i)); ok {
+			switch f {
+			case "mG", "mP", "py", "h":
+				c.quotas[i].flt = f
+			default:
+				return c, false
+			}
+		}
+	}
 	os, ok := proto.KV(w, "order")
 	if !ok || len(c.quotas) == 0 {
 		return c, false
@@ -108,6 +118,24 @@ func parseCfg(w []string) (caseCfg, bool) {
 		c.order = append(c.order, q)
 	}
 	return c, true
+}
+
+// optional `p=<x|y>` (URL path, default x) and `h=<0|1>` (request header x-c02: 1, default 0)
+func txOpts(w []string) (string, bool, bool) {
+	path, hdr := "x", false
+	if p, ok := proto.KV(w, "p"); ok {
+		if p != "x" && p != "y" {
+			return "", false, false
+		}
+		path = p
+	}
+	if h, ok := proto.KV(w, "h"); ok {
+		if h != "0" && h != "1" {
+			return "", false, false
+		}
+		hdr = h == "1"
+	}
+	return path, hdr, true
 }
 
 func exec(c proto.Case, o *proto.Out) []string {
@@ -165,7 +193,12 @@ func exec(c proto.Case, o *proto.Out) []string {
 				outs[i] = "bad-op"
 				continue
 			}
-			v := e.request(id, m == "P")
+			path, hdr, ok3 := txOpts(w)
+			if !ok3 {
+				outs[i] = "bad-op"
+				continue
+			}
+			v := e.request(id, m == "P", path, hdr)
 			outs[i] = "v=" + v + " " + e.obs()
 			o.Count("req-" + v)
 			if v == "a" {
@@ -177,7 +210,16 @@ func exec(c proto.Case, o *proto.Out) []string {
 				outs[i] = "bad-op"
 				continue
 			}
-			outs[i] = e.response(id) + " " + e.obs()
+			path, _, ok3 := txOpts(w)
+			m, okm := proto.KV(w, "m")
+			if !okm {
+				m = "G"
+			}
+			if !ok3 || (m != "G" && m != "P") {
+				outs[i] = "bad-op"
+				continue
+			}
+			outs[i] = e.response(id, m == "P", path) + " " + e.obs()
 			o.Count("resp")
 		case "err":
 			id, ok := reqID(w)
